@@ -14,7 +14,8 @@ CHECKS = {'C01': {'level': 'exploration',
          'tests': [{'run': '^TestC01$',
                     'checks': {'quick': 300, 'thorough': 2500},
                     'shards': {'quick': 1, 'thorough': 16},
-                    'timeout': {'quick': 900, 'thorough': 3400}}]},
+                    'timeout': {'quick': 900, 'thorough': 3400},
+                    'env': {'GOMAXPROCS': 1}}]},
  'C02': {'level': 'exploration',
          'rule': 'model-based stateful histories in which every transaction draws its ending (commit / error after step k), may contain failing '
                  'inserts, deletes and key operations; oracles: (a) reference model after every transaction, (b) metamorphic twin collection that '
@@ -29,7 +30,8 @@ CHECKS = {'C01': {'level': 'exploration',
          'tests': [{'run': '^TestC02$',
                     'checks': {'quick': 250, 'thorough': 2500},
                     'shards': {'quick': 1, 'thorough': 16},
-                    'timeout': {'quick': 900, 'thorough': 3400}}]},
+                    'timeout': {'quick': 900, 'thorough': 3400},
+                    'env': {'GOMAXPROCS': 1}}]},
  'C03': {'level': 'exploration',
          'rule': 'model-based stateful histories (as C01, with rollbacks and key operations) plus actions createIndex(col, predicate)/dropIndex at '
                  'arbitrary points, up to 4 live indexes, several per column; predicate families: numeric threshold (<,>=) and parity decoded with '
@@ -46,7 +48,8 @@ CHECKS = {'C01': {'level': 'exploration',
          'tests': [{'run': '^TestC03$',
                     'checks': {'quick': 250, 'thorough': 2500},
                     'shards': {'quick': 1, 'thorough': 16},
-                    'timeout': {'quick': 900, 'thorough': 3400}},
+                    'timeout': {'quick': 900, 'thorough': 3400},
+                    'env': {'GOMAXPROCS': 1}},
                    {'run': '^TestC03Parallel$',
                     'checks': {'quick': 15, 'thorough': 300},
                     'shards': {'quick': 1, 'thorough': 2},
@@ -68,7 +71,8 @@ CHECKS = {'C01': {'level': 'exploration',
          'tests': [{'run': '^TestC04$',
                     'checks': {'quick': 250, 'thorough': 2500},
                     'shards': {'quick': 1, 'thorough': 16},
-                    'timeout': {'quick': 900, 'thorough': 3400}}]},
+                    'timeout': {'quick': 900, 'thorough': 3400},
+                    'env': {'GOMAXPROCS': 1}}]},
  'C05': {'level': 'exploration',
          'rule': 'op sequences over {delete, insert, bool, put/merge x 2/4/8-byte, byte strings of length 0..65535} x offset moves '
                  '{same,+1,+small,>=128,>=16384,>=2^21,backwards,block jump,back to block 0,revisit}: exhaustively all short sequences over an '
@@ -79,11 +83,12 @@ CHECKS = {'C01': {'level': 'exploration',
                  'the same op grammar, semantic oracle inside the target) for 90 s on all cores; see coverage.native_fuzz_execs',
          'assumptions': ['offsets < 2^31 and byte strings <= 65535 bytes (format limits)',
                          'merge operations always carry a value (as every caller in kelindar/column does)'],
-         'tests': [{'run': '^TestC05Exhaustive$', 'timeout': {'quick': 600, 'thorough': 3000}},
+         'tests': [{'run': '^TestC05Exhaustive$', 'timeout': {'quick': 600, 'thorough': 3000}, 'env': {'GOMAXPROCS': 1}},
                    {'run': '^TestC05Random$',
                     'checks': {'quick': 8000, 'thorough': 40000},
                     'shards': {'quick': 1, 'thorough': 16},
-                    'timeout': {'quick': 600, 'thorough': 3000}},
+                    'timeout': {'quick': 600, 'thorough': 3000},
+                    'env': {'GOMAXPROCS': 1}},
                    {'run': 'FuzzBufferOps (native)',
                     'fuzz': 'FuzzBufferOps',
                     'thorough_only': True,
@@ -103,14 +108,15 @@ CHECKS = {'C01': {'level': 'exploration',
          'tests': [{'run': '^TestC06$',
                     'checks': {'quick': 200, 'thorough': 2500},
                     'shards': {'quick': 1, 'thorough': 8},
-                    'timeout': {'quick': 900, 'thorough': 3400}},
+                    'timeout': {'quick': 900, 'thorough': 3400},
+                    'env': {'GOMAXPROCS': 1}},
                    {'run': '^TestSchedWriters$',
                     'checks': {'quick': 1500, 'thorough': 20000},
                     'shards': {'quick': 1, 'thorough': 8},
-                    'env': {'VERIF_PROP': 'C06'},
+                    'env': {'VERIF_PROP': 'C06', 'GOMAXPROCS': 1},
                     'timeout': {'quick': 900, 'thorough': 3400}},
                    {'run': '^TestSchedWritersExhaustive$',
-                    'env': {'VERIF_PROP': 'C06', 'VERIF_SCHED_LIMIT': {'quick': 2500, 'thorough': 200000}},
+                    'env': {'VERIF_PROP': 'C06', 'VERIF_SCHED_LIMIT': {'quick': 2500, 'thorough': 200000}, 'GOMAXPROCS': 1},
                     'timeout': {'quick': 900, 'thorough': 3400}}]},
  'C07': {'level': 'exploration',
          'rule': 'model-based stateful histories over all column kinds (enum, bool, record, key, expire, late columns, custom merges), all Capacity '
@@ -125,7 +131,8 @@ CHECKS = {'C01': {'level': 'exploration',
          'tests': [{'run': '^TestC07$',
                     'checks': {'quick': 250, 'thorough': 2500},
                     'shards': {'quick': 1, 'thorough': 16},
-                    'timeout': {'quick': 900, 'thorough': 3400}}]},
+                    'timeout': {'quick': 900, 'thorough': 3400},
+                    'env': {'GOMAXPROCS': 1}}]},
  'C08': {'level': 'exploration',
          'rule': 'generated programs: one task calling Snapshot plus 2..4 writer tasks (1..2 transactions each: merges/puts into shared rows of 1..3 '
                  'blocks incl. order-sensitive merges, deletes of privately owned rows, single- and multi-block) under the cooperative scheduler '
@@ -141,9 +148,10 @@ CHECKS = {'C01': {'level': 'exploration',
          'tests': [{'run': '^TestC08Sched$',
                     'checks': {'quick': 700, 'thorough': 8000},
                     'shards': {'quick': 1, 'thorough': 12},
-                    'timeout': {'quick': 900, 'thorough': 3400}},
+                    'timeout': {'quick': 900, 'thorough': 3400},
+                    'env': {'GOMAXPROCS': 1}},
                    {'run': '^TestC08Exhaustive$',
-                    'env': {'VERIF_SCHED_LIMIT': {'quick': 250, 'thorough': 30000}},
+                    'env': {'VERIF_SCHED_LIMIT': {'quick': 250, 'thorough': 30000}, 'GOMAXPROCS': 1},
                     'timeout': {'quick': 900, 'thorough': 3400}}]},
  'C09': {'level': 'exploration',
          'rule': 'controlled-schedule part: generated programs of 2..4 writer tasks (1..2 transactions each, 1..4 steps: merges and puts into SHARED '
@@ -162,10 +170,10 @@ CHECKS = {'C01': {'level': 'exploration',
          'tests': [{'run': '^TestSchedWriters$',
                     'checks': {'quick': 1500, 'thorough': 20000},
                     'shards': {'quick': 1, 'thorough': 8},
-                    'env': {'VERIF_PROP': 'C09'},
+                    'env': {'VERIF_PROP': 'C09', 'GOMAXPROCS': 1},
                     'timeout': {'quick': 900, 'thorough': 3400}},
                    {'run': '^TestSchedWritersExhaustive$',
-                    'env': {'VERIF_PROP': 'C09', 'VERIF_SCHED_LIMIT': {'quick': 2500, 'thorough': 200000}},
+                    'env': {'VERIF_PROP': 'C09', 'VERIF_SCHED_LIMIT': {'quick': 2500, 'thorough': 200000}, 'GOMAXPROCS': 1},
                     'timeout': {'quick': 900, 'thorough': 3400}},
                    {'run': '^TestC09Parallel$',
                     'checks': {'quick': 60, 'thorough': 1500},
@@ -212,7 +220,8 @@ CHECKS = {'C01': {'level': 'exploration',
          'tests': [{'run': '^TestC11$',
                     'checks': {'quick': 200, 'thorough': 2000},
                     'shards': {'quick': 1, 'thorough': 12},
-                    'timeout': {'quick': 900, 'thorough': 3400}},
+                    'timeout': {'quick': 900, 'thorough': 3400},
+                    'env': {'GOMAXPROCS': 1}},
                    {'run': '^TestC11Parallel$',
                     'checks': {'quick': 150, 'thorough': 3000},
                     'shards': {'quick': 1, 'thorough': 4},
@@ -236,7 +245,8 @@ CHECKS = {'C01': {'level': 'exploration',
          'tests': [{'run': '^TestC12$',
                     'checks': {'quick': 400, 'thorough': 4000},
                     'shards': {'quick': 1, 'thorough': 16},
-                    'timeout': {'quick': 900, 'thorough': 3400}},
+                    'timeout': {'quick': 900, 'thorough': 3400},
+                    'env': {'GOMAXPROCS': 1}},
                    {'run': '^TestC12Parallel$',
                     'checks': {'quick': 300, 'thorough': 6000},
                     'shards': {'quick': 1, 'thorough': 4},
@@ -263,11 +273,13 @@ CHECKS = {'C01': {'level': 'exploration',
          'tests': [{'run': '^TestC13Snapshot$',
                     'checks': {'quick': 300, 'thorough': 400},
                     'shards': {'quick': 1, 'thorough': 12},
-                    'timeout': {'quick': 900, 'thorough': 3400}},
+                    'timeout': {'quick': 900, 'thorough': 3400},
+                    'env': {'GOMAXPROCS': 1}},
                    {'run': '^TestC13Log$',
                     'checks': {'quick': 300, 'thorough': 600},
                     'shards': {'quick': 1, 'thorough': 4},
-                    'timeout': {'quick': 900, 'thorough': 3400}},
+                    'timeout': {'quick': 900, 'thorough': 3400},
+                    'env': {'GOMAXPROCS': 1}},
                    {'run': '^TestC13Parallel$',
                     'checks': {'quick': 25, 'thorough': 400},
                     'shards': {'quick': 1, 'thorough': 2},
@@ -288,7 +300,8 @@ CHECKS = {'C01': {'level': 'exploration',
          'tests': [{'run': '^TestC14$',
                     'checks': {'quick': 30, 'thorough': 400},
                     'shards': {'quick': 1, 'thorough': 16},
-                    'timeout': {'quick': 900, 'thorough': 3400}}]},
+                    'timeout': {'quick': 900, 'thorough': 3400},
+                    'env': {'GOMAXPROCS': 1}}]},
  'C15': {'level': 'exploration',
          'rule': 'sequential part: model-based histories (single/multi-block, read-only, rolled back, failing inserts, key operations, prefills, '
                  'bulk deletes) on a collection whose logger records every commit AND forwards it through a real commit.Channel. Oracle per '
@@ -303,14 +316,15 @@ CHECKS = {'C01': {'level': 'exploration',
          'tests': [{'run': '^TestC15$',
                     'checks': {'quick': 250, 'thorough': 2500},
                     'shards': {'quick': 1, 'thorough': 8},
-                    'timeout': {'quick': 900, 'thorough': 3400}},
+                    'timeout': {'quick': 900, 'thorough': 3400},
+                    'env': {'GOMAXPROCS': 1}},
                    {'run': '^TestSchedWriters$',
                     'checks': {'quick': 1500, 'thorough': 20000},
                     'shards': {'quick': 1, 'thorough': 8},
-                    'env': {'VERIF_PROP': 'C15'},
+                    'env': {'VERIF_PROP': 'C15', 'GOMAXPROCS': 1},
                     'timeout': {'quick': 900, 'thorough': 3400}},
                    {'run': '^TestSchedWritersExhaustive$',
-                    'env': {'VERIF_PROP': 'C15', 'VERIF_SCHED_LIMIT': {'quick': 2500, 'thorough': 200000}},
+                    'env': {'VERIF_PROP': 'C15', 'VERIF_SCHED_LIMIT': {'quick': 2500, 'thorough': 200000}, 'GOMAXPROCS': 1},
                     'timeout': {'quick': 900, 'thorough': 3400}}]},
  'C16': {'level': 'exploration',
          'rule': 'model-based stateful histories over a string column whose values come from a 5-value alphabet with forced duplicates (incl. the '
@@ -324,7 +338,8 @@ CHECKS = {'C01': {'level': 'exploration',
          'tests': [{'run': '^TestC16$',
                     'checks': {'quick': 300, 'thorough': 3000},
                     'shards': {'quick': 1, 'thorough': 16},
-                    'timeout': {'quick': 900, 'thorough': 3400}}]},
+                    'timeout': {'quick': 900, 'thorough': 3400},
+                    'env': {'GOMAXPROCS': 1}}]},
  'C17': {'level': 'exploration',
          'rule': 'generated cases (16 run concurrently, each with its own collection and REAL background vacuum): cleanup interval in {1,5,20} ms; '
                  '2..12 rows drawn from {no TTL, TTL 0, short TTL 10-60 ms, long TTL >= 1 h, 2 s TTL extended by 1 h right away, long TTL re-set to '
@@ -380,4 +395,5 @@ CHECKS = {'C01': {'level': 'exploration',
          'tests': [{'run': '^TestC19$',
                     'checks': {'quick': 400, 'thorough': 4000},
                     'shards': {'quick': 1, 'thorough': 16},
-                    'timeout': {'quick': 900, 'thorough': 3400}}]}}
+                    'timeout': {'quick': 900, 'thorough': 3400},
+                    'env': {'GOMAXPROCS': 1}}]}}
